@@ -955,6 +955,16 @@ func (x *Exec) execSelect(fr *Frame, st *State, i *ssa.Select) {
 			}
 		}
 	}
+	if !i.Blocking && x.sequential {
+		// the default case is taken only when no other case is ready; a closed channel is always
+		// ready. (Only without interference: another goroutine may close it right afterwards.)
+		for _, s := range i.States {
+			if s.Dir == types.RecvOnly && x.env.con.CloseOnly[x.chanKey(s.Chan)] {
+				g := mkSelect(st.H("ghost:closed", arraySort(sortInt, sortBool)), x.term(fr, s.Chan))
+				x.assume(st, mkImp(mkEq(idx, mkInt(-1)), mkNot(g)))
+			}
+		}
+	}
 	x.note("select abstracted as non-deterministic choice")
 	fr.regs[i] = tv
 }
